@@ -12,7 +12,7 @@
 //! Bytes after the record never contain 0x16, so no later segment can begin a new handshake record
 //! (a second ClientHello on the connection is outside the judged domain).
 
-use crate::pkt::{Endpoints, Link, Script};
+use crate::pkt::{flags, Endpoints, Link, Script};
 use crate::rt::{self, Ctx, PropSpec, Rng};
 use crate::tlsgen::{self, Ext, Hello, Obs};
 use serde_json::json;
@@ -199,6 +199,17 @@ fn run_packets(pk: &mut Pk, stream: &[u8], cuts: &[usize], with_handshake: bool)
     // Ethernet minimum-frame padding (tiny segments) and a captured FCS after the IP datagram
     s.eth_trailer = [0u8, 0, 1, 2][(pk.episodes % 4) as usize];
     s.c_stream(stream, cuts);
+    // every fifth episode the server says something between two client segments (an alert, a
+    // banner, a ServerHello sent early, or a capture that interleaves the directions loosely):
+    // data of the other direction is no part of the client's record and yields nothing itself
+    let mut reverse_at = usize::MAX;
+    if pk.episodes % 5 == 2 && s.frames.len() >= pre + 2 {
+        let payloads: [&[u8]; 4] = [&[0x15, 0x03, 0x03, 0x00, 0x02, 0x02, 0x28], b"220 mail.example ESMTP ready\r\n", &[0x16, 0x03, 0x03, 0x00, 0x04, 0x0e, 0x00, 0x00, 0x00], &[0x17, 0x03, 0x03, 0x00, 0x03, 1, 2, 3]];
+        let p = payloads[(pk.episodes / 5 % 4) as usize];
+        let f = s.seg(false, s.s_next, s.c_isn.wrapping_add(1), flags::ACK | flags::PSH, vec![], p);
+        reverse_at = pre + 1 + (pk.episodes as usize / 20) % (s.frames.len() - pre - 1);
+        s.frames.insert(reverse_at, f);
+    }
     let tls = &mut pk.tls;
     let t0 = std::time::Instant::now();
     for (i, f) in s.frames.iter().enumerate() {
@@ -223,7 +234,7 @@ fn run_packets(pk: &mut Pk, stream: &[u8], cuts: &[usize], with_handshake: bool)
             }
             Ok(Ok(None)) | Ok(Err(_)) => None,
         };
-        if i < pre {
+        if i < pre || i == reverse_at {
             if out.is_some() {
                 h.extra_results += 1;
             }
@@ -771,6 +782,90 @@ fn stage_workers(ctx: &mut Ctx, pk: &mut Pk) {
         wp.h.shutdown();
         ctx.stage_add("worker_pool_rounds", 1);
         let _ = round;
+    }
+    // bursts: a worker that is kept busy with large unsegmented hellos finds the segments of
+    // several other connections, interleaved, waiting in its queue (batches of up to 32 or 64
+    // frames).  Each of those connections still yields exactly one result, the single-segment one.
+    for round in 0..ctx.scale(4, 40, 0) {
+        let cfg = crate::pool::PoolCfg { workers: 1 + (round as usize % 2), queue: 4096, batch: *r.pick(&[32usize, 64]), timeout_ms: 2, max_conn: 1000, with_db: false };
+        let Ok(wp) = Wp::new(cfg) else { continue };
+        crate::pool::reset_log(0, 0);
+        let mut frames: Vec<Vec<u8>> = Vec::new();
+        // (connection endpoints key, expected single-segment result)
+        let mut expected: Vec<(String, Option<String>)> = Vec::new();
+        for _ in 0..24 {
+            let sz = 3000 + r.usize(6000);
+            let Some(hl) = hello_of_size(&mut r, sz) else { continue };
+            let case = make_case(ctx, pk, "burst-filler", &hl);
+            let ep = pk.next();
+            let mut s = Script::new(ep.clone(), Link::Ethernet, r.u32(), 0x5000_0000);
+            s.c_stream(&case.rec, &[]);
+            frames.extend(std::mem::take(&mut s.frames));
+            expected.push((ep.key(), case.baseline.clone()));
+        }
+        let mut segmented: Vec<Vec<Vec<u8>>> = Vec::new();
+        for _ in 0..3 + r.usize(3) {
+            let sz = 300 + r.usize(900);
+            let Some(hl) = hello_of_size(&mut r, sz) else { continue };
+            let case = make_case(ctx, pk, "burst-segmented", &hl);
+            let ep = pk.next();
+            let mut s = Script::new(ep.clone(), Link::Ethernet, r.u32(), 0x5000_0000);
+            let k = 12 + r.usize(12);
+            let cuts = norm(random_cuts(&mut r, case.rec.len(), k));
+            s.c_stream(&case.rec, &cuts);
+            segmented.push(std::mem::take(&mut s.frames));
+            expected.push((ep.key(), case.baseline.clone()));
+        }
+        // round-robin interleaving of the segmented connections
+        let mut pos = vec![0usize; segmented.len()];
+        loop {
+            let mut any = false;
+            for (c, fs) in segmented.iter().enumerate() {
+                if pos[c] < fs.len() {
+                    frames.push(fs[pos[c]].clone());
+                    pos[c] += 1;
+                    any = true;
+                }
+            }
+            if !any {
+                break;
+            }
+        }
+        let t0 = std::time::Instant::now();
+        let mut queued = 0u64;
+        let mut refused = false;
+        for f in frames {
+            if wp.h.dispatch(f) {
+                queued += 1;
+            } else {
+                refused = true;
+            }
+        }
+        let drained = wp.h.wait_drain(queued, std::time::Duration::from_secs(30));
+        let results = wp.h.drain_results();
+        wp.h.shutdown();
+        if refused || drained == crate::pool::Drain::Stalled || t0.elapsed().as_secs_f64() > STALL_LIMIT_S {
+            ctx.inconclusive("burst run: a frame was refused, the pool stalled or the run was too slow");
+            continue;
+        }
+        // results per connection (canonical lines start with "tls <src>><dst> ...")
+        let mut got: std::collections::BTreeMap<String, Vec<String>> = std::collections::BTreeMap::new();
+        for line in results.into_iter().flatten() {
+            let key = crate::canon::endpoints_of(&line).map(|e| e.replace('>', "-")).unwrap_or_default();
+            got.entry(key).or_default().push(line);
+        }
+        for (key, want) in &expected {
+            let g = got.remove(key).unwrap_or_default();
+            let ok = match want {
+                Some(_) => g.len() == 1,
+                None => g.is_empty(),
+            };
+            ctx.judge(ok, &[], "burst through a TLS worker: a connection does not yield exactly its one result", || {
+                json!({"connection": key, "results": g, "one_segment_result_exists": want.is_some(), "pool": format!("{cfg:?}"), "segmented_connections": segmented.len()})
+            });
+        }
+        ctx.judge(got.is_empty(), &[], "burst through a TLS worker: results for connections that were not sent", || json!({"extra": got.keys().collect::<Vec<_>>()}));
+        ctx.bucket(&format!("workers/burst/w{}/b{}/segmented{}", cfg.workers, cfg.batch, segmented.len()));
     }
 }
 
